@@ -306,9 +306,46 @@ def event_keys(keys, scale):
     return d, obj
 
 
+MODEL_MODS = 'pitch_modifiers_dropped'
+MODEL_TUNING = 'pitch_tuning_as_equal_steps'
+
+
+def pitch_models(keys, scale, spo):
+    """Reference chains of two known findings, [(kinds, Pitch)]: modifier
+    keys are used only together with the main key of their own stage
+    (degree: no ctranspose; no main key at all: the constant defaults); the
+    scale's tuning is read as len(tuning) equal steps of a 2:1 octave."""
+    out = []
+    mains = [m for m in ref.PITCH_MAIN if m in keys]
+    mods = None
+    if mains == ['degree']:
+        mods = {k: x for k, x in keys.items() if k != 'ctranspose'}
+        mscale = scale
+    elif not mains:
+        mods = {k: x for k, x in keys.items()
+                if k in ('harmonic', 'detune')}
+        mscale = None
+    tun = None
+    if scale is not None and not ref.tuning_is_equal(scale):
+        n = len(ref.tuning_semitones(scale)[0])
+        tun = {'degrees': scale['degrees'], 'tuning': {'kind': 'et', 'n': n}}
+    if mods is not None:
+        out.append(((MODEL_MODS,), ref.resolve_pitch(
+            mods, mscale, None if mscale is None else spo)))
+    if tun is not None:
+        out.append(((MODEL_TUNING,), ref.resolve_pitch(
+            keys, tun, float(tun['tuning']['n']))))
+    if mods is not None and tun is not None and mscale is not None:
+        out.append(((MODEL_MODS, MODEL_TUNING), ref.resolve_pitch(
+            mods, tun, float(tun['tuning']['n']))))
+    return out
+
+
 class Resolved:
     def __init__(self, keys, scale, scale_obj):
-        self.pitch = ref.resolve_pitch(keys, scale, scale_spo(scale, scale_obj))
+        spo = scale_spo(scale, scale_obj)
+        self.pitch = ref.resolve_pitch(keys, scale, spo)
+        self.models = pitch_models(keys, scale, spo)
         self.amp = ref.resolve_amp(keys)
         self.delta = ref.resolve_delta(keys)
         self.sustain = ref.resolve_sustain(keys)
@@ -319,6 +356,21 @@ class Resolved:
         self.delta_exact = all(
             ref.nice(keys.get(k, ref.DEFAULTS.get(k)))
             for k in (('delta',) if 'delta' in keys else ('dur', 'stretch')))
+
+
+def check_pitch(v, r, kind, actual, values, detail):
+    """`values(pitch) -> acceptable numbers`. A mismatch that is exactly
+    what the model of a known finding predicts is reported under that
+    model's kind(s) instead of `kind`."""
+    if any(ref.close(actual, x) for x in values(r.pitch)):
+        return True
+    for kinds, pitch in r.models:
+        if any(ref.close(actual, x) for x in values(pitch)):
+            for k in kinds:
+                v.fail(k, f'{kind}: {detail()}')
+            return False
+    v.fail(kind, detail())
+    return False
 
 
 def check_pairs(v, pairs, desc_names, keys, r, where):
@@ -367,10 +419,10 @@ def check_pairs(v, pairs, desc_names, keys, r, where):
         if isinstance(val, bool) or not isinstance(val, (int, float)):
             v.fail('param_value_type', f'{where}: {n}={val!r}')
         elif kind == 'freq':
-            v.check(ref.close(val, r.pitch.played)
-                    or ref.close(val, r.pitch.played_alt), 'freq_played',
-                    f'{where}: freq {val!r} sent, chain gives '
-                    f'{r.pitch.played!r}; keys {keys}')
+            check_pitch(v, r, 'freq_played', val,
+                        lambda p: (p.played, p.played_alt),
+                        lambda: f'{where}: freq {val!r} sent, chain gives '
+                                f'{r.pitch.played!r}; keys {keys}')
         elif kind == 'val':
             v.check(ref.close(val, exp), 'param_value',
                     f'{where}: {n}={val!r} sent, event gives {exp!r}')
@@ -404,16 +456,17 @@ def run_keys(case, v):
     v.check(ref.close(e('sustain'), r.sustain), 'sustain_lookup',
             lambda: f"{e('sustain')!r} vs {float(r.sustain)!r}; keys {keys}")
     if 'freq' not in keys and 'midinote' not in keys:
-        v.check(ref.close(e('note'), r.pitch.note), 'note_lookup',
-                lambda: f"{e('note')!r} vs {r.pitch.note!r}; keys {keys} "
-                        f"scale {scale}")
+        check_pitch(v, r, 'note_lookup', e('note'), lambda p: (p.note,),
+                    lambda: f"{e('note')!r} vs {r.pitch.note!r}; keys {keys} "
+                            f"scale {scale}")
     if 'midinote' in keys or 'freq' not in keys:
-        v.check(ref.close(e('midinote'), r.pitch.midinote), 'midinote_lookup',
-                lambda: f"{e('midinote')!r} vs {r.pitch.midinote!r}; keys "
-                        f"{keys} scale {scale}")
-    v.check(any(ref.close(e('freq'), f) for f in r.pitch.freq), 'freq_lookup',
-            lambda: f"{e('freq')!r} vs {r.pitch.freq!r}; keys {keys} scale "
-                    f"{scale}")
+        check_pitch(v, r, 'midinote_lookup', e('midinote'),
+                    lambda p: (p.midinote,),
+                    lambda: f"{e('midinote')!r} vs {r.pitch.midinote!r}; "
+                            f"keys {keys} scale {scale}")
+    check_pitch(v, r, 'freq_lookup', e('freq'), lambda p: p.freq,
+                lambda: f"{e('freq')!r} vs {r.pitch.freq!r}; keys {keys} "
+                        f"scale {scale}")
     # 2. what is played: two events of a stream, delta apart
     begin(0)
     d2, _ = event_keys(keys, scale)
@@ -857,22 +910,6 @@ def run_streams(case, v):
 
 # --- known findings ------------------------------------------------------------------------------
 
-def _event_of(stage, case, viol):
-    if stage == 'keys':
-        return case['keys'], case.get('scale')
-    if stage == 'play':
-        evs = case['events']
-        if viol.detail.startswith('event '):
-            try:
-                i = int(viol.detail[6:].split(':')[0].split()[0])
-                return evs[i]['keys'], evs[i].get('scale')
-            except (ValueError, IndexError):
-                pass
-        if len(evs) == 1:
-            return evs[0]['keys'], evs[0].get('scale')
-    return None, None
-
-
 def _merged_events(node):
     """Leaf events, and leaf events updated by a Pchain's outer values."""
     if node['k'] in ('pbind', 'pmono'):
@@ -882,28 +919,15 @@ def _merged_events(node):
     return []
 
 
-def _modifier_zone(keys, scale, kind):
-    """The event gives no explicit freq and the stage of the chain that its
-    most specific main key enters leaves a modifier of a *later or absent*
-    stage unused in sc3: ctranspose with degree as main key; any modifier
-    with no main key at all."""
-    if 'freq' in keys or 'midinote' in keys or 'note' in keys:
-        return False
-    if 'degree' in keys and scale is not None \
-            and not ref.tuning_is_equal(scale):
-        return False
-    p = ref.resolve_pitch(keys, scale)
-    if 'degree' in keys:
-        return kind != 'midinote_lookup' and keys.get('ctranspose', 0) != 0
-    if kind == 'midinote_lookup':
-        return not ref.close(p.midinote, 60.0)
-    return not ref.close(p.freq[1], ref.DEFAULT_FREQ)
+def _events_of(stage, case):
+    if stage == 'keys':
+        return [(case['keys'], case.get('scale'))]
+    return [(e['keys'], e.get('scale')) for e in case['events']]
 
 
 def classify_known(stage, case, viol):
     kind = viol.kind
     if stage in ('keys', 'play'):
-        keys, scale = _event_of(stage, case, viol)
         if kind.startswith(('sc3_raised:AttributeError@seq/event.py:',
                             'stream_raised:AttributeError@seq/event.py:')):
             scales = [case.get('scale')] if stage == 'keys' else \
@@ -911,14 +935,17 @@ def classify_known(stage, case, viol):
             if any(s is not None for s in scales) \
                     and 'arrayed_param' in viol.detail:
                 return 'scale_key_becomes_arrayed_param'
-        if keys is not None and kind in (
-                'freq_played', 'freq_lookup', 'midinote_lookup',
-                'note_lookup'):
-            if kind != 'note_lookup' and _modifier_zone(keys, scale, kind):
-                return 'pitch_modifiers_need_their_main_key'
-            if scale is not None and not ref.tuning_is_equal(scale) \
-                    and 'freq' not in keys and 'midinote' not in keys:
-                return 'scale_tuning_ignored'
+        evs = _events_of(stage, case)
+        if kind == MODEL_MODS and any(
+                not any(m in k for m in ('freq', 'midinote', 'note'))
+                and ('ctranspose' in k if 'degree' in k else
+                     any(m in k for m in ref.PITCH_MODS) or sc is not None)
+                for k, sc in evs):
+            return 'pitch_modifiers_need_their_main_key'
+        if kind == MODEL_TUNING and any(
+                sc is not None and not ref.tuning_is_equal(sc)
+                for k, sc in evs):
+            return 'scale_tuning_ignored'
     if kind == 'stream_raised:ValueError@seq/event.py:__new__' \
             and "no event type 'rest'" in viol.detail:
         if stage == 'play' and any(e.get('rest') == 'type'
@@ -1145,14 +1172,18 @@ def stream_case(draw):
         const = {}
         if draw(st.integers(0, 2)) == 0:
             const['legato'] = draw(st.sampled_from([0.5, 1, 1.5, 0.9, 0.25]))
-        if draw(st.integers(0, 3)) == 0:
-            const['stretch'] = draw(st.sampled_from([0.5, 2, 2, 1, 1.5]))
+        whole = draw(st.integers(0, 5)) == 0     # int durs and stretch
+        if whole:
+            const['stretch'] = draw(st.sampled_from([1, 2]))
+        elif draw(st.integers(0, 3)) == 0:
+            const['stretch'] = draw(st.sampled_from([0.5, 2, 1, 1.5]))
         if draw(st.integers(0, 3)) == 0:
             const['amp'] = draw(st.sampled_from([0.5, 0.25, 0.3]))
         per_sustain = draw(st.integers(0, 4)) == 0
         evs = []
         for k in range(n):
-            e = {'freq': marker(L, k), 'dur': dur()}
+            e = {'freq': marker(L, k),
+                 'dur': draw(st.integers(1, 3)) if whole else dur()}
             e.update(const)
             if per_sustain:
                 e['sustain'] = gridnum(u, draw(st.integers(1, 6)))
@@ -1245,7 +1276,10 @@ def stream_case(draw):
              'launch': draw(st.sampled_from(['routine', 'routine', 'main']))}
         if p['launch'] == 'main':
             p['start'] = 0
-        pr = draw(st.sampled_from([None, None, 'dict', 'event', 'event']))
+        has_pdur = any(n['k'] == 'pdur' for n in walk(t))
+        pr = draw(st.sampled_from(
+            [None, 'dict', 'event', 'event', 'event', 'event'] if has_pdur
+            else [None, None, 'dict', 'event', 'event']))
         if pr is not None:
             p['proto'] = {'legato': draw(st.sampled_from([0.5, 1, 0.75]))}
             p['proto_event'] = pr == 'event'
